@@ -182,7 +182,7 @@ func judgeC05(c *Ctx, sc *Scenario) *Violation {
 	if len(res.Run.BatchIn) != nonblob {
 		return &Violation{"C05/work-not-linear", fmt.Sprintf("%d objects requested from cat-file --batch, %d distinct non-blob objects reachable", len(res.Run.BatchIn), nonblob)}
 	}
-	if wall > 20*time.Second {
+	if wall > 120*time.Second {
 		return &Violation{"C05/too-slow", fmt.Sprintf("%v for %d distinct objects", wall, len(ex.Closure))}
 	}
 	// saturated values in the table and in JSON v2
@@ -267,5 +267,5 @@ func init() {
 			}
 		},
 		Replay: judgeC05,
-		Rule:   "worlds that only a simulated disk can supply: declared blob sizes {2^32-2..2^32+1, 2^33, 2^63, 2^64-1, random around 2^32}, alone, summed across 2^64, inside bombs (breadth^depth around 2^32 and 2^64), references pointing straight at huge blobs; all 21 numeric JSON v1 fields compared with min(true value, capacity) from the big-integer model; saturated metrics must show the infinity sign and 30 '!' at thresholds 0, 30 and 1e300 and the capacity in JSON v2; work observed at the simulated boundary (objects requested from cat-file --batch = distinct non-blob objects) and a 20 s wall ceiling. non-trivial: at least one counter saturates; distinct by scenario hash. Not decided here: the saturating-arithmetic law for all operand pairs (a pure function; only the pairs the worlds produce are exercised)"})
+		Rule:   "worlds that only a simulated disk can supply: declared blob sizes {2^32-2..2^32+1, 2^33, 2^63, 2^64-1, random around 2^32}, alone, summed across 2^64, inside bombs (breadth^depth around 2^32 and 2^64), references pointing straight at huge blobs; all 21 numeric JSON v1 fields compared with min(true value, capacity) from the big-integer model; saturated metrics must show the infinity sign and 30 '!' at thresholds 0, 30 and 1e300 and the capacity in JSON v2; work observed at the simulated boundary (objects requested from cat-file --batch = distinct non-blob objects) and a 120 s wall ceiling (an expansion proportional to the checkout size would not finish at all). non-trivial: at least one counter saturates; distinct by scenario hash. Not decided here: the saturating-arithmetic law for all operand pairs (a pure function; only the pairs the worlds produce are exercised)"})
 }
